@@ -67,9 +67,26 @@ Proof.
 Qed.
 
 (* ---- (2) internal activity terminates: a ranking function ---------------------------------------------- *)
+Lemma ccount_nonneg b l : 0 <= ccount b l.
+Proof. induction l as [|[k w] l IH]; simpl; [lia|]. destruct (Bool.eqb w b); lia. Qed.
+Lemma ccount_wake1 l : ccount true l <= ccount true (wake1 l) <= ccount true l + 1.
+Proof. induction l as [|[k w] l IH]; cbn [wake1 ccount Bool.eqb]; [lia|]. destruct w; cbn [wake1 ccount Bool.eqb]; lia. Qed.
+Lemma ccount_false_wake1 l : ccount false (wake1 l) + ccount true (wake1 l) = ccount false l + ccount true l.
+Proof. induction l as [|[k w] l IH]; cbn [wake1 ccount Bool.eqb]; [lia|]. destruct w; cbn [wake1 ccount Bool.eqb]; lia. Qed.
+Lemma ccount_crem k l w : cfind k l = Some w ->
+  ccount true (crem k l) = ccount true l - (if w then 1 else 0) /\
+  ccount false (crem k l) = ccount false l - (if w then 0 else 1).
+Proof.
+  induction l as [|[q u] l IH]; simpl; [discriminate|]. destruct (Nat.eqb q k); intros H.
+  - inversion H; subst. destruct w; cbn [Bool.eqb]; lia.
+  - destruct (IH H) as [E1 E2]. cbn [ccount]. rewrite E1, E2. destruct u, w; cbn [Bool.eqb]; lia.
+Qed.
+Lemma ccount_app b l k w : ccount b (l ++ [(k, w)]) = ccount b l + (if Bool.eqb w b then 1 else 0).
+Proof. induction l as [|[q u] l IH]; simpl; [lia|]. rewrite IH. lia. Qed.
+
 Lemma mu_nonneg s : tokinv s -> 0 <= mu s.
 Proof.
-  intros (T1 & _). unfold mu, sb, b2z.
+  intros (T1 & _). unfold mu, sb, b2z. pose proof (ccount_nonneg true (cons s)).
   pose proof (cnt_nonneg is_insel (prods s)). pose proof (cnt_nonneg is_lefttok (prods s)).
   pose proof (cnt_nonneg is_leftctx (prods s)). pose proof (cnt_nonneg is_await (prods s)).
   destruct (tok s), (lock s); lia.
@@ -90,15 +107,18 @@ Proof.
 Qed.
 
 Lemma mu_decreases c s l s' z :
-  tokinv s -> stopped s = false -> internal l = true -> step c s l = Some (s', z) -> mu s' < mu s.
+  corrupt s = [] -> tokinv s -> stopped s = false -> internal l = true -> step c s l = Some (s', z) -> mu s' < mu s.
 Proof.
-  intros T St Hi H.
+  intros NF T St Hi H.
   assert (T' : tokinv s') by (eapply tokinv_step; eauto).
   destruct T' as (_ & _ & _ & T4'). revert T4' St Hi. unfold mu, sb. revert H.
   step_cases; intros T4' St Hi; try discriminate; cnt_rw2;
     try (exfalso; eapply T4'; reflexivity);
     try congruence;
     try match goal with H : find_id ?id (inflight s) = Some _ |- _ => pose proof (length_remove_id _ _ _ H) end;
+    try match goal with H : cfind ?k (cons s) = Some _ |- _ => pose proof (proj1 (ccount_crem _ _ _ H)) end;
+    pose proof (ccount_wake1 (cons s)); rewrite ?ccount_app; cbn [Bool.eqb];
+    repeat match goal with H : items s = _ |- _ => rewrite ?H; clear H end; cbv iota in *;
     cbn [length]; rewrite ?app_length; cbn [length]; unfold b2z; lia.
 Qed.
 
@@ -107,17 +127,18 @@ Lemma stopped_internal c s l s' z :
 Proof. intros Hi H. revert Hi. revert H. step_cases; intros Hi; try discriminate; first [reflexivity|congruence]. Qed.
 
 Lemma internal_terminates_l c ls : forall s s',
-  tokinv s -> stopped s = false -> internal_run ls -> run c s ls = Some s' ->
+  corrupt s = [] -> tokinv s -> stopped s = false -> internal_run ls -> run c s ls = Some s' ->
   Z.of_nat (length ls) <= mu s - mu s' /\ tokinv s' /\ stopped s' = false.
 Proof.
-  induction ls as [|l ls IH]; intros s s' T St IR R.
+  induction ls as [|l ls IH]; intros s s' NF T St IR R.
   - simpl in R. inversion R; subst. simpl. split; [lia|auto].
   - inversion IR as [|? ? Hi IR']; subst. simpl in R.
     destruct (step c s l) as [[s1 z]|] eqn:E; [|discriminate].
-    pose proof (mu_decreases _ _ _ _ _ T St Hi E) as D.
+    pose proof (mu_decreases _ _ _ _ _ NF T St Hi E) as D.
+    assert (NF1 : corrupt s1 = []) by (eapply nofault_step; [exact NF| |exact E]; destruct l; simpl; auto; discriminate).
     assert (T1 : tokinv s1) by (eapply tokinv_step; eauto).
     assert (St1 : stopped s1 = false) by (rewrite (stopped_internal _ _ _ _ _ Hi E); exact St).
-    destruct (IH _ _ T1 St1 IR' R) as (L & T2 & St2).
+    destruct (IH _ _ NF1 T1 St1 IR' R) as (L & T2 & St2).
     split; [|auto]. cbn [length]. lia.
 Qed.
 
@@ -210,7 +231,8 @@ Proof.
   intros Hc RF St IR R.
   pose proof (reachable_fit_reachable _ _ RF) as RE.
   pose proof (reach_tokinv _ _ _ RE) as T.
-  destruct (internal_terminates_l _ _ _ _ T St IR R) as (L & T' & _).
+  pose proof (reach_nofault _ c s (fun l H => H) RE) as NF.
+  destruct (internal_terminates_l _ _ _ _ NF T St IR R) as (L & T' & _).
   pose proof (mu_nonneg s' T'). split; [lia|].
   intros Q.
   assert (RF' : reachable_fit c s').
@@ -285,7 +307,8 @@ Proof.
       + congruence.
     - exfalso. exact (NR r eq_refl). }
   destruct EN as (l & Hi & NE). destruct (step c s l) as [[s1 z]|] eqn:E; [|congruence].
-  exists l, s1, z. split; [exact Hi|]. split; [exact E|]. eapply mu_decreases; eauto.
+  exists l, s1, z. split; [exact Hi|]. split; [exact E|].
+  eapply mu_decreases; eauto. exact (reach_nofault _ c s (fun l H => H) RE).
 Qed.
 
 (* ---- the cond API including Broadcast: the token invariant holds on EVERY run -------------------------- *)
